@@ -27,16 +27,18 @@ LEVEL = "exploration"
 RULE = ("generated histories of 2-14 operations over {connect, connection loss, answer policy for the next upload (result / error / "
         "lost), server key-count notification, restart, consume (a peer fetches a bundle and sends a first message), re-offer (the "
         "server hands an already consumed key to a second peer)} for one account started from nothing with batches of 6 keys and a "
-        "refill threshold of 4, plus two registered peers; every operation is settled before the next. Non-trivial = a lost or "
+        "refill threshold of 4, plus three registered peers; which of the keys on offer the server hands out is generated (first, any, the "
+        "highest id); every operation is settled before the next. Non-trivial = a lost or "
         "refused confirmation, or a restart between an offer and its confirmation, or a consumed key. Distinct = canonical JSON.")
 ASSUMPTIONS = [
     "server double: key directory handing out each one-time prekey once (re-offering is an explicit operation)",
     "the upload error reply makes the control layer raise by design ('Sent keys were not accepted'); that exception is not a finding",
-    "re-use of an id for a new key after the old key was consumed is not flagged (the statement speaks of keys that are on offer)",
+    "re-use of an id for a new key after the old key was consumed is not flagged (the statement speaks of keys that are on offer): "
+    "the new key under that id is then tracked like any other key on offer",
 ]
 
 X = "4915100000031@s.whatsapp.net"
-PEERS = ["4915100000032@s.whatsapp.net", "4915100000033@s.whatsapp.net"]
+PEERS = ["4915100000032@s.whatsapp.net", "4915100000033@s.whatsapp.net", "4915100000034@s.whatsapp.net"]
 
 
 def db_rows(home, phone):
@@ -153,7 +155,12 @@ def _run(case, out, server, clients, hx):
             if not ok:
                 return fail("upload:signed_prekey_signature_does_not_verify", {"step": step})
             for kid, val in u["keys"].items():
-                if kid in offered and offered[kid] != val and kid not in consumed:
+                if kid in consumed and offered.get(kid) != val:
+                    # the id of a consumed key is used again for a new key (the library numbers on from the highest id left)
+                    consumed.discard(kid)
+                    confirmed.discard(kid)
+                    out.label("id_of_consumed_key_reused")
+                elif kid in offered and offered[kid] != val and kid not in consumed:
                     return fail("upload:id_offered_again_with_different_key", {"step": step, "id": kid})
                 if kid in confirmed and kid not in consumed:
                     return fail("upload:confirmed_key_offered_again", {"step": step, "id": kid, "op": op[:2]})
@@ -246,6 +253,10 @@ def _run(case, out, server, clients, hx):
                 out.label("reoffer_consumed_key")
             elif not k["prekeys"]:
                 continue
+            elif len(op) > 2 and op[2]:
+                # which of the keys on offer the server hands out is the server's choice
+                k["prekeys"].insert(0, k["prekeys"].pop(op[2] % len(k["prekeys"])))
+                out.label("server_hands_out_" + ("highest_key" if k["prekeys"][0] is max(k["prekeys"], key=lambda n: int.from_bytes(n.getChild("id").data, "big")) else "other_key"))
             next_key = k["prekeys"][0]
             kid = int.from_bytes(next_key.getChild("id").data, "big")
             # a peer that already has a session with the account would not fetch a bundle: use a peer without one
@@ -344,7 +355,8 @@ def script_strategy():
     op = st.one_of(st.just(["connect"]), st.just(["connect"]), st.just(["disconnect"]),
                    st.tuples(st.just("policy"), st.sampled_from(["result", "result", "error", "drop"])).map(list),
                    st.just(["count"]), st.just(["restart"]), st.just(["restart"]),
-                   st.tuples(st.just("consume"), sel).map(list), st.tuples(st.just("consume"), sel).map(list),
+                   st.tuples(st.just("consume"), sel, st.sampled_from([0, 0, 1, 3, -1, -1])).map(list),
+                   st.tuples(st.just("consume"), sel, st.sampled_from([0, 0, 1, 3, -1, -1])).map(list),
                    st.tuples(st.just("reoffer"), sel).map(list))
     return st.builds(lambda ops, seed, pol: {"sub": "history", "seed": seed, "initial_policy": pol, "ops": [["connect"]] + ops},
                      st.lists(op, min_size=1, max_size=13), st.integers(0, 2 ** 31 - 1),
@@ -355,6 +367,8 @@ def _enum_basic():
     yield {"sub": "history", "seed": 1, "ops": [["connect"], ["consume", 0], ["reoffer", 1], ["restart"], ["consume", 1], ["count"], ["restart"]]}
     yield {"sub": "history", "seed": 2, "ops": [["policy", "drop"], ["connect"], ["disconnect"], ["policy", "result"], ["connect"], ["consume", 0]]}
     yield {"sub": "history", "seed": 3, "ops": [["policy", "error"], ["connect"], ["restart"], ["policy", "result"], ["restart"], ["count"], ["consume", 0]]}
+    yield {"sub": "history", "seed": 5, "ops": [["connect"], ["consume", 0, -1], ["count"], ["consume", 1, 1], ["consume", 2, -1], ["restart"], ["count"]]}
+    yield {"sub": "history", "seed": 6, "ops": [["connect"], ["consume", 0, -1], ["consume", 1, -1], ["consume", 2, -1], ["restart"], ["count"], ["restart"]]}
     yield {"sub": "history", "seed": 4, "ops": [["connect"], ["policy", "drop"], ["count"], ["restart"], ["policy", "result"], ["restart"]]}
 
 
